@@ -6,7 +6,7 @@ R06.3 member lookup order: own table, then super classes in provider order, firs
 R06.4 the descriptor scanner `map_desc`
 R06.5 who may construct a Namespace<N> (tuple constructor called, used as a function value, `Self(..)`, struct literal)
 R06.6 the jar-derived super-class provider
-R06.7 completeness of the remapper tables: every entry of the source map that has both names gets an entry
+R06.8 completeness of the remapper tables: every entry of the source map that has both names gets an entry
 """
 import json
 import os
@@ -53,7 +53,7 @@ def run(F, R, tier):
     q = F.crate("quill")
     r06_1(F, q, R, spec)
     found = r06_2(q, R, spec)
-    r06_7(R, found)
+    r06_8(R, found)
     r06_3(q, R, spec)
     r06_4(q, R, spec)
     r06_5(q, R, spec)
@@ -61,7 +61,7 @@ def run(F, R, tier):
     return ("normal forms of the 11 default methods and 7 implementation methods vs. spec/quill_remapper.json; override scan over "
             "all workspace impls of ARemapper/BRemapper; key/value terms of every insert in remapper_a/remapper_b; "
             "return/loop structure of map_field_fail, map_method_fail and Vec<S>::get_super_classes; scanner structure of map_desc; "
-            "loop source, path conditions and early exits of the insert of each remapper table (R06.7)")
+            "loop source, path conditions and early exits of the insert of each remapper table (R06.8)")
 
 
 # ------------------------------------------------------------------------------------ R06.1
@@ -117,12 +117,12 @@ def r06_2(q, R, spec):
     rid = "R06.2"
     R.rule(rid, "remapper tables: keys are built from names[from] only, values from names[to] only; member descriptors (stored in "
                 "the first namespace) go through remapper_a(0 -> from) on the key side and remapper_a(0 -> to) on the value side")
-    found = {}       # table name -> (body, normaliser, table term, spec env, spec entry): input of R06.7
+    found = {}       # table name -> (body, normaliser, table term, spec env, spec entry): input of R06.8
     # ---- remapper_a
     sa = spec["tables"]["remapper_a"]
     b = q.fn("remapper_a")
     if R.anchor(rid, "fn Mappings::remapper_a", b) and R.anchor(rid, "remapper_a parameters", len(b["params"]) == len(sa["params"]), b["sp"]):
-        nz = U.Norm(b, sa["params"])
+        nz = U.Norm(b, sa["params"], skips_transparent=True)          # who is skipped is decided by R06.8
         env = U.build_env(sa["params"], sa["let"])
         res = U.result_term(nz)
         t = dict(res[2]).get("classes") if res and res[0] == "struct" and res[1] == "ARemapperImpl" else None
@@ -137,7 +137,7 @@ def r06_2(q, R, spec):
     sb = spec["tables"]["remapper_b"]
     b = q.fn("remapper_b")
     if R.anchor(rid, "fn Mappings::remapper_b", b) and R.anchor(rid, "remapper_b parameters", len(b["params"]) == len(sb["params"]), b["sp"]):
-        nz = U.Norm(b, sb["params"])
+        nz = U.Norm(b, sb["params"], skips_transparent=True)          # who is skipped is decided by R06.8
         env = U.build_env(sb["params"], sb["let"])
         res = U.result_term(nz)
         t = None
@@ -422,12 +422,12 @@ def r06_5(q, R, spec):
            detail="the index field must not be writable from outside the crate")
     R.floor(rid, 4)
 
-# ------------------------------------------------------------------------------------ R06.7
+# ------------------------------------------------------------------------------------ R06.8
 TABLES = ("remapper_a.classes", "remapper_b.classes", "remapper_b.fields", "remapper_b.methods")
 
 
-def r06_7(R, found):
-    rid = "R06.7"
+def r06_8(R, found):
+    rid = "R06.8"
     R.rule(rid, "remapper tables are complete: between the creation of a table and the insert that fills it there is exactly one loop, "
                 "over every entry of the source map (no adaptor that drops entries); the insert is skipped only when the element has "
                 "no name in the `from` or the `to` namespace; the loop is left early only by an error")
@@ -525,9 +525,10 @@ def _below(root, node, stop_chain):
 
 def _exits(R, rid, what, nz, scope, point, conds, loop_like, skip_word):
     """Ways to leave `scope` (a loop body / an element closure) other than by an error.
-    -> rendered offenders.  `conds`: the path conditions of `point` (their exit blocks are accounted for: judged as conditions)."""
+    -> (ways that end the filling early, ways that skip this element without being a recognised condition), rendered.
+    `conds`: the path conditions of `point` (their exit blocks are accounted for: judged as conditions)."""
     order = U.order_index(scope)
-    bad = []
+    bad, skips = [], []
     for x in H.walk(scope, into_closures=False):
         k = x.get("k")
         if k not in ("ret", "break", "continue"):
@@ -553,10 +554,12 @@ def _exits(R, rid, what, nz, scope, point, conds, loop_like, skip_word):
             # `return ..` inside the element closure = skip (None) or a different entry
         if any(any(y is x for blk in (c["exit"] or []) for y in H.walk(blk)) for c in conds):
             continue                        # `if c { continue }` / `let .. else { continue }`: judged as a condition
-        if order.get(id(x), 0) > order.get(id(point), 0) or U.exclusive_branches(scope, x, point):
+        within = any(y is x for y in H.walk(point))          # inside the insert's own operands: evaluated before the insert happens
+        if (order.get(id(x), 0) > order.get(id(point), 0) and not within) or U.exclusive_branches(scope, x, point):
             continue                        # after the entry was made, or in a branch the entry is not in
-        bad.append("a `%s` before the entry is made, not of the form `if c { %s }` / `let .. else { %s }`" % (skip_word, skip_word, skip_word))
-    return bad
+        skips.append("a `%s` before the entry is made that is not the exit of `if c { %s }` / `let .. else { %s }` / `let x = match .. { .. => %s }`"
+                     % (skip_word, skip_word, skip_word, skip_word))
+    return bad, skips
 
 
 def _report(R, rid, what, sp, src_ok, src_got, sources, extra, bad):
@@ -603,8 +606,8 @@ def _complete_loop(R, rid, what, b, nz, lid, sources, present):
     inner_stmts = [H.peel(st, refs=False) for p in between if p.get("k") == "block" for st in p["stmts"]]
     conds = [c for c in allc if any(c["owner"] is p for p in between) or any(c["owner"] is x for x in inner_stmts)]
     extra = [P.show(c) for c in conds if not P.cond(c)]
-    bad = _exits(R, rid, what, nz, scope, point, conds, loop_like, word)
-    _report(R, rid, what, point.get("sp"), itt in sources, U.show(itt), sources, extra, bad)
+    bad, skips = _exits(R, rid, what, nz, scope, point, conds, loop_like, word)
+    _report(R, rid, what, point.get("sp"), itt in sources, U.show(itt), sources, extra + skips, bad)
 
 
 def _complete_chain(R, rid, what, b, nz, chain, sources, present):
@@ -637,12 +640,14 @@ def _complete_chain(R, rid, what, b, nz, chain, sources, present):
     order = U.order_index(clo["body"])
     for x in H.walk(clo["body"], into_closures=False):
         # `e?` on an Option inside the closure: the element is skipped when e is None
-        if x.get("k") == "try" and (x["e"].get("ty") or "").startswith("core::option::Option<") and order[id(x)] < order[id(point)] \
+        # (before the entry in evaluation order: an earlier statement, or an operand of the `Some((..))` itself)
+        if x.get("k") == "try" and (x["e"].get("ty") or "").startswith("core::option::Option<") \
+                and (order[id(x)] < order[id(point)] or any(y is x for y in H.walk(point))) \
                 and not U.exclusive_branches(clo["body"], x, point) and not P.term1(nz.term(x["e"])):
             extra.append("%s?" % H.render(x["e"])[:140])
-    bad = _exits(R, rid, what, nz, clo["body"], point, conds, False, "return")
+    bad, skips = _exits(R, rid, what, nz, clo["body"], point, conds, False, "return")
     itt = nz.term(node["recv"])
-    _report(R, rid, what, point.get("sp"), itt in sources, U.show(itt), sources, extra, bad)
+    _report(R, rid, what, point.get("sp"), itt in sources, U.show(itt), sources, extra + skips, bad)
 
 
 def _value_position(body, node):
